@@ -552,6 +552,7 @@ def outcome(spec, res, ix, fault):
     if any(f['k'] == 'stdin' and f['v'] == 'garbage' for f in fl):
         return ('OK', 'content-not-judged', '')     # names/records from random bytes: only safety clauses apply
     alt_rows = []
+    alt_texts = []
     if spec['extra_args']:
         # extra options may have changed the output format or destination: other readings are tried
         # only if the expected one does not give a valid alignment (see below)
@@ -560,6 +561,7 @@ def outcome(spec, res, ix, fault):
         if mode == 'cli':
             o = res.op(ix['CLI'])
             cands += [v for k, v in sorted(o.out.items()) if k.startswith('file:')] + [o.out.get('stdout', b'')]
+        alt_texts = [t for t in cands if t]
         for t in cands:
             for f2 in ('fasta', 'msf', 'clu'):
                 r2, _, _ = oracles.parse_output(f2, props_sched._strip_log(t, f2))
@@ -601,14 +603,18 @@ def outcome(spec, res, ix, fault):
                 why = None
                 break
     garbage_in = spec['cls'] != 'wellformed' or bool(readfault)     # a read fault truncates mid-line
-    if why and garbage_in and fmt != 'fasta' and not spec['extra_args']:
+    texts = [text] + alt_texts        # with extra options the alignment may have gone to another file or to stdout
+    if why and garbage_in and (fmt != 'fasta' or spec['extra_args']):
         # names read from garbage may contain blanks ('>x!!NA_MULTIPLE_ALIGNMENT 1.0'): the blank-separated reading of a
         # Clustal/MSF row then takes part of the name for residues; read the rows by position and last token instead
-        import parsers
-        r3 = parsers.parse_blocks_loose(text, fmt)
-        if len(r3) >= 2 and loose_valid(r3, extra + data + data) is None:
-            why = None
-    if why and (any(n == b'' for n, _ in rows) or ((fmt != 'fasta' or spec['extra_args']) and b'\n ' in text and garbage_in)):
+        import parsers, props_sched
+        for t in texts:
+            for f2 in ([fmt] if not spec['extra_args'] else ['clu', 'msf']):
+                if why and f2 != 'fasta':
+                    r3 = parsers.parse_blocks_loose(props_sched._strip_log(t, f2), f2)
+                    if len(r3) >= 2 and loose_valid(r3, extra + data + data) is None:
+                        why = None
+    if why and (any(n == b'' for rr in [rows] + alt_rows for n, _ in rr) or ((fmt != 'fasta' or spec['extra_args']) and garbage_in and any(b'\n ' in t for t in texts))):
         # garbage input made kalign read a sequence without a name; a nameless row cannot be told from
         # padding in msf/clu, so the content oracle is not applied (memory safety etc. still are)
         why = None
